@@ -204,7 +204,8 @@ def run_mapswap(inst):
     _, what, tr = inst[:3]
     budget = inst[3] if len(inst) > 3 else None
     shims.install()
-    graph = {1: [2], 2: [3], 3: []}
+    graph = {1: [2], 2: []} if what.endswith('2') else {1: [2], 2: [3], 3: []}
+    what = what.rstrip('2')
 
     def scenario():
         eng = E.get_engine()
@@ -386,7 +387,7 @@ def main(tier):
     rep.functions = src_hash(sg.Segment, ms.SimpleMatcher.logprob_trans, md.DistanceMatcher.logprob_trans, de.project,
                              de.distance_point_to_segment, de.distance_segment_to_segment, mb.BaseMatcher._match_states)
     budget = 60 if tier == 'quick' else 600
-    kres = run_instances(run_instance, [i + (budget,) for i in k_instances(tier)] + [('mapswap', w, t, budget) for w in ('nodes', 'edges') for t in ('swap', 'translate')])
+    kres = run_instances(run_instance, [i + (budget,) for i in k_instances(tier)] + [('mapswap', w, t, budget) for w in ('nodes', 'edges', 'edges2') for t in ('swap', 'translate')])
     res = gabs.run_all(rep, run_instance, r_instances(tier), budget, 16 * (80 if tier == 'quick' else 900))
     ch = run_crosshair(tier)
     rep.extra['crosshair_labels'] = ch
